@@ -56,6 +56,9 @@ func dynret[T any](f any, i int, args ...any) T  { var z T; return z }
 func deferObj[T any](field string) T             { var z T; return z }
 func deferVal[T any](field string) T             { var z T; return z }
 func isNaN(f float64) bool                       { return f != f }
+func ratTextOK(s string) bool                    { return true }
+func decimalFits(s string, scale, prec int) bool { return true }
+func decimalValue(s string, scale int) float64   { return 0 }
 func isInf(f float64) bool                       { return false }
 func toFloat(i int64) float64                    { return float64(i) }
 func truncF(f float64) float64                   { return f }
@@ -1011,6 +1014,7 @@ func isUnknownSpec(a predOutcome) predOutcome {
 //@ func (*Executor).executeDecimalMethod
 //@ props C16 C08
 //@ ensures [C16] rounded-or-refused: node.Operator() == ast.BinaryDecimal && node.Left() != nil && r1 == nil ==> ncalls(roundDecimal) == 1 && callret[bool](roundDecimal, 1) && sameFloat(r0, callret[float64](roundDecimal, 0)) && sameFloat(callarg[float64](roundDecimal, "num"), num)
+//@ ensures [C16] precision-and-scale-as-written: ncalls(roundDecimal) == 1 ==> callarg[int](roundDecimal, "precision") == firstret[int](getNodeInt32, 0) && (node.Right() != nil ==> ncalls(getNodeInt32) == 2 && callarg[int](roundDecimal, "scale") == callret[int](getNodeInt32, 0)) && (node.Right() == nil ==> callarg[int](roundDecimal, "scale") == 0)
 //@ ensures [C16 C08] refused-suppressibly: ncalls(roundDecimal) == 1 && !callret[bool](roundDecimal, 1) ==> r1 != nil && errIs(r1, ErrVerbose)
 //@ ensures [C16 C08] invalid-argument-is-a-hard-error: ncalls(getNodeInt32) >= 1 && callret[error](getNodeInt32, 1) != nil ==> r1 != nil && errIs(r1, ErrExecution) && !errIs(r1, ErrVerbose)
 //@ ensures [C05] class: r1 != nil ==> errIs(r1, ErrExecution) || errIs(r1, ErrInvalid)
@@ -1019,12 +1023,20 @@ func isUnknownSpec(a predOutcome) predOutcome {
 //@ ensures [C16 C08] scale-range: ncalls(getNodeInt32) == 2 && callret[error](getNodeInt32, 1) == nil && (callret[int](getNodeInt32, 0) < -1000 || callret[int](getNodeInt32, 0) > 1000) ==> r1 != nil && errIs(r1, ErrExecution) && !errIs(r1, ErrVerbose)
 //@ ensures [C05 C16] local-finite: r1 == nil && !isNaN(num) && !isInf(num) ==> !isNaN(r0) && !isInf(r0)
 
-// roundDecimal works in math/big, which the verifier does not model: that the
-// value is rounded half away from zero at the scale and refused when it has
-// more than precision digits is decided by the bounded check method-range-grid
+// roundDecimal works in math/big, which the verifier models exactly for the
+// operations used here (engine: bigmodel.go): rationals are SMT reals, big
+// integers SMT integers. The specification reads num as the decimal number its
+// shortest text denotes (ghost: ratTextOK / decimalFits / decimalValue):
+// digits is the integer nearest to num * 10^scale, halves away from zero; the
+// value is accepted exactly when |digits| < 10^precision and the nearest
+// float64 of digits / 10^scale is finite, and that float64 is the result.
 //@ func roundDecimal
 //@ props C16 C05
+//@ requires [C16] scale-in-int32: scale >= -2147483648 && scale <= 2147483647
 //@ ensures [C16 C05] finite-when-accepted: r1 ==> !isNaN(r0) && !isInf(r0)
+//@ ensures [C16] rounded-half-away-from-zero-at-the-scale: ratTextOK(uninterp[string]("ext_strconv_FormatFloat_r0", num, byte('g'), -1, 64)) && decimalFits(uninterp[string]("ext_strconv_FormatFloat_r0", num, byte('g'), -1, 64), scale, precision) ==> r0 == decimalValue(uninterp[string]("ext_strconv_FormatFloat_r0", num, byte('g'), -1, 64), scale) && r1 == !isInf(r0)
+//@ ensures [C16] more-digits-than-the-precision-refused: ratTextOK(uninterp[string]("ext_strconv_FormatFloat_r0", num, byte('g'), -1, 64)) && !decimalFits(uninterp[string]("ext_strconv_FormatFloat_r0", num, byte('g'), -1, 64), scale, precision) ==> !r1
+//@ ensures [C16] not-a-number-refused: !ratTextOK(uninterp[string]("ext_strconv_FormatFloat_r0", num, byte('g'), -1, 64)) ==> !r1
 
 //@ func getNodeInt32
 //@ props C16 C17
